@@ -20,6 +20,17 @@ CHECKS = {
     ),
 }
 
+CHECKS["C09"] = dict(
+    technique="abstract interpretation of the rewrite callbacks over a term/rational-function domain, exhaustive case split over letters, ordered pairs (and triples) of the 20 path commands, compared with a transcribed reference interpreter of SVG 1.1 path semantics",
+    text="For every rewrite (absolute, absolute_moveto, relative, explicit_lines, expand_shorthand, move, arcs_to_cubics, subpaths, as_cmd_seq, "
+         "round_floats, the seven as_path builders) the source is specialised per command letter / ordered pair (quick) / triple (thorough) with "
+         "symbolic arguments and the emitted commands are proved equal, as rational functions, to the reference SVG semantics and to the promised "
+         "target form. This quantifies over all letter contexts and all numbers at once, which example strings cannot.",
+    note="Not decided: the distance bound for arcs (C12), the 1e-9 near-start snapping branch (structure only), half-ulp rounding of round(). "
+         "Floating-point rounding is ignored (exact rational arithmetic). Trusted: sa/pathsem.py reference interpreter transcribed from SVG 1.1 8.3, sa/spec.py tables.",
+    design="DESIGN.md section 3 / C09",
+)
+
 NOT_APPLICABLE = {}
 
 
